@@ -144,7 +144,7 @@ Obs == [ ok      |-> last.ok,
                         IF m \notin mods THEN "E"
                         ELSE IF Visible(r, m) THEN "T" ELSE "F"]] ]
 
-Bound == nops < MaxOps
+Bound == nops <= MaxOps   \* successors that violate a CONSTRAINT are dropped before ACTION_CONSTRAINT prints them
 View  == <<mods, owns, exports, decls, graph>>
 StateRec == [mods |-> [m \in Mods |-> m \in mods], owns |-> owns, exports |-> exports, decls |-> decls,
              graph |-> [a \in Mods |-> [b \in Mods |-> <<a, b>> \in graph]]]
